@@ -74,6 +74,22 @@ def check_ops(case):
                           {"observed": v, "expected": valid}))
     except Exception as e:  # noqa: BLE001
         fails.append((f"n={n}/validate-raised", f"validate() raised {type(e).__name__} for {label}", {}))
+    # constructor with validate=True must refuse exactly the invalid sets
+    try:
+        c2 = dict(case)
+        L_ = libif.lib()
+        g_ = [tuple(g) for g in case["gens"]]
+        if case["format"] == "strings":
+            L_.Stabilizer(list(case.get("strings") or libif.paulis_to_strings(g_, n, "minimal")), validate=True)
+        else:
+            R_, S_, p_ = libif.paulis_to_matrices(g_, n)
+            L_.Stabilizer((R_, S_) if case["format"] == "matrices" else (R_, S_, p_), validate=True)
+        accepted = True
+    except Exception:  # noqa: BLE001
+        accepted = False
+    if accepted != valid:
+        fails.append((f"n={n}/ctor-validate", f"Stabilizer(..., validate=True) {'accepted' if accepted else 'refused'} {label}, which is "
+                      f"{'a valid' if valid else 'not a valid'} stabilizer", {"observed": accepted, "expected": valid}))
     # preparation
     try:
         qc = libif.guarded(lambda: L.sc.get_preparation_circuit(stab, name))
